@@ -261,14 +261,8 @@ def show_row(r) -> str:
     return "(" + " ".join(show_val(v) for v in r) + ")"
 
 
-def build_real(q, one_shot: bool = False, wrap_domain=None, classes=None):
-    """Build the real EQL query. Returns (query_object, variables dict, objects)."""
-    from krrood.entity_query_language import symbolic as S
-    from krrood.entity_query_language.entity import (let, entity, set_of, and_, or_, not_, contains, exists, for_all,
-                                                      flatten)
-    from krrood.entity_query_language.quantify_entity import an
-
-    objs = make_objects(q, classes)
+def make_vars(q, objs, one_shot: bool = False, wrap_domain=None):
+    from krrood.entity_query_language.entity import let
     V = {}
     for n, d in q["doms"].items():
         vals = [real_val(v, objs) for v in d]
@@ -280,6 +274,15 @@ def build_real(q, one_shot: bool = False, wrap_domain=None, classes=None):
         elif one_shot:
             dom = (v for v in vals)
         V[n] = let(typ, dom, name=n)
+    return V
+
+
+def build_query(q, V, objs):
+    """Build one real EQL query over existing variables V. Returns (query_object, selected exprs, single)."""
+    from krrood.entity_query_language import symbolic as S
+    from krrood.entity_query_language.entity import (entity, set_of, and_, or_, not_, contains, exists, for_all,
+                                                      flatten)
+    from krrood.entity_query_language.quantify_entity import an
 
     def term(t):
         if t[0] == "var":
@@ -323,6 +326,14 @@ def build_real(q, one_shot: bool = False, wrap_domain=None, classes=None):
         query = an(entity(sel[0], c)) if c is not None else an(entity(sel[0]))
     else:
         query = an(set_of(sel, c)) if c is not None else an(set_of(sel))
+    return query, sel, single
+
+
+def build_real(q, one_shot: bool = False, wrap_domain=None, classes=None):
+    """Build the real EQL query. Returns (query_object, selected exprs, single, objects)."""
+    objs = make_objects(q, classes)
+    V = make_vars(q, objs, one_shot, wrap_domain)
+    query, sel, single = build_query(q, V, objs)
     return query, sel, single, objs
 
 
